@@ -449,7 +449,7 @@ class Interp:
             obj = self.eval(target_expr.value, env)
             if isinstance(obj, ObjV):
                 if not any(f.name == "__init__" for f in self.call_stack):
-                    self.event("self_write", st, attr=target_expr.attr, cls=obj.cls.qualname, how="container mutation")
+                    self.event("self_write", st, attr=target_expr.attr, cls=obj.cls.qualname, how="container mutation", fresh=getattr(obj, "born_trace", None) is self.trace)
                 obj.fields[target_expr.attr] = new
             else:
                 self.event("lost_mutation", st)
@@ -1463,6 +1463,7 @@ class Interp:
         if self.index.abstract_methods(cls):
             self.event("abstract_instantiation", node, cls=cls.qualname)
         obj = ObjV(cls)
+        obj.born_trace = self.trace  # (an object created during the run being interpreted: a store to it is not a store to pre-existing state)
         r = cls.lookup("__init__")
         if r is not None:
             self.call_value(BoundV(FuncV(r[1], None), obj), args, kwargs, node, env)
